@@ -3,8 +3,7 @@
         -> <cid> R ST <n> states.. AG <n_aggs> <len> aggs..          (or  <cid> R NONE)
      <cid> chk <kind> <S csr literal> <n> states[n] <m> aggs[m] <n_aggs>
         kind = seq : agg_ok (ids = rank of the root)   kind = glob : agg_ok_glob (ids = root's global index)
-        -> <cid> C WF b SYM b REFL b DEC b IND b MAX b MIS b AGG b
-     <cid> fuel <S csr literal> <nk> keys <fuel>     -> <cid> F 0|1   (does mis2 finish with that many rounds) *)
+        -> <cid> C WF b SYM b REFL b DEC b IND b MAX b MIS b AGG b *)
 open Model
 open Conv
 
@@ -53,11 +52,6 @@ let run_case cid (t : toks) =
     Printf.printf "%s C WF %s SYM %s REFL %s DEC %s IND %s MAX %s MIS %s AGG %s\n" cid
       (b_str (graph_wfb s)) (b_str (symmetricb s)) (b_str (reflexiveb s))
       (b_str (decidedb s st)) (b_str (indep2b s st)) (b_str (maximal2b s st)) (b_str (mis_ok s st)) (b_str aggok)
-  | "fuel" ->
-    let s = pattern (parse_csr t) in
-    let nk = next_int t in let keys = next_qs t nk in
-    let f = next_nat t in
-    Printf.printf "%s F %s\n" cid (b_str (q_mis2_fuel s keys f <> None))
   | _ -> Printf.printf "%s UNSUPPORTED %s\n" cid op
 
 let () =
